@@ -128,6 +128,9 @@ def main(mod, argv=None):
         out = {}
         for k, lst in res:
             out[idx[k]] = sorted({code for _, code in lst})
+        for i, inf in enumerate(infos):          # codes decided on the Python side (monitors that need no model)
+            if inf and inf.get("py_codes"):
+                out[i] = sorted(set(out.get(i, [])) | set(inf["py_codes"]))
         return out, faults, infos
 
     res, faults, infos = evaluate(cases)
